@@ -21,7 +21,7 @@ import (
 type ScriptLimit struct {
 	Traj    []int
 	Pos     int
-	Samples []SampleRec
+	Samples []SampleRec           `fp:"-"`
 	OnEnter func(newEstimate int) // called at OnSample entry with the estimate that takes effect
 	subs    []core.LimitChangeListener
 }
@@ -66,6 +66,9 @@ type RecRegistry struct {
 	Stopped  int
 	Log      []string
 }
+
+func (r *RecRegistry) FingerprintSkip() {}
+func (l *recListener) FingerprintSkip() {}
 
 func NewRecRegistry() *RecRegistry {
 	return &RecRegistry{Gauges: map[string]core.MetricSupplier{}, Samples: map[string][]float64{}, Kinds: map[string]string{}}
